@@ -606,7 +606,7 @@ func (k *Key) UnmarshalCBOR(data []byte) error {
 	if err != nil {
 		return fmt.Errorf("key_ops: %w", err)
 	}
-	if len(key_ops) > 0 {
+	if key_ops != nil {
 		k.Ops = make([]KeyOp, len(key_ops))
 		for i, op := range key_ops {
 			switch op := op.(type) {
